@@ -314,18 +314,9 @@ fn pool_counts(pool: &IpDefragPool<u64, u32>) -> Option<String> {
     let fd = d.find(", finished_data_bufs: ")?;
     let fs = d.find(", finished_section_bufs: ")?;
     let active = top_elements(&d[a + "active: ".len()..fd])?.len();
-    let mut dl: Vec<usize> = Vec::new();
-    for e in top_elements(&d[fd + ", finished_data_bufs: ".len()..fs])? {
-        dl.push(top_elements(&e)?.len());
-    }
-    let mut sl: Vec<usize> = Vec::new();
-    for e in top_elements(&d[fs + ", finished_section_bufs: ".len()..])? {
-        sl.push(top_elements(&e)?.len());
-    }
-    dl.sort();
-    sl.sort();
-    let j = |v: &Vec<usize>| v.iter().map(|x| x.to_string()).collect::<Vec<_>>().join(",");
-    Some(format!("active={},fdata=[{}],fsec=[{}]", active, j(&dl), j(&sl)))
+    let dl = top_elements(&d[fd + ", finished_data_bufs: ".len()..fs])?.len();
+    let sl = top_elements(&d[fs + ", finished_section_bufs: ".len()..])?.len();
+    Some(format!("active={},fdata={},fsec={}", active, dl, sl))
 }
 
 fn active_count(pool: &IpDefragPool<u64, u32>) -> Option<usize> {
